@@ -65,6 +65,9 @@ fn main() {
             let pairs: usize = args[3].parse().unwrap();
             extra::writefaults(seed, pairs, args[4].parse().unwrap(), args[5].parse().unwrap()).print();
         }
+        "flushdur" => {
+            extra::flush_durability(args[2].parse().unwrap(), args[3].parse().unwrap()).print();
+        }
         "writefault1" => {
             extra::writefault_one(args[2] == "3", args[3].parse().unwrap(), args[4].parse().unwrap());
         }
